@@ -40,7 +40,7 @@ def rand_perm(rng, n):
 
 def gen(R, n):
     """matrix as exact rationals of floats + kind tag"""
-    kind = R.rng.choice(["dyadic", "dyadic", "uniform", "generic", "scaled_dyadic", "conic_int", "scaled_generic", "scaled_uniform", "near_equal", "zero", "tiny_scaled"])
+    kind = R.rng.choice(["dyadic", "dyadic", "uniform", "generic", "scaled_dyadic", "conic_int", "scaled_generic", "scaled_uniform", "near_equal", "zero", "tiny_scaled", "light_overlap"])
     k = R.rng.randint(1, min(6, max(1, n * n // 2)))
     perms = [rand_perm(R.rng, n) for _ in range(k)]
     if kind == "tiny_scaled":
@@ -52,6 +52,30 @@ def gen(R, n):
             for i in range(n):
                 X[i][p[i]] += w
         return X, kind, True
+    if kind == "light_overlap":
+        # (round 6, C06-16) heavy dyadic permutations plus a few very light ones (2^-30 = 9.3e-10 each, just BELOW the routine's
+        # 1e-9 stop threshold) that share cells, so that some entries of the residue are >= 1e-9 and the loop has to go on
+        # although the entries above the threshold alone contain no perfect matching.  Exactly representable in doubles.
+        if n < 2:
+            return [[Fraction(1)] * n for _ in range(n)], kind, False
+        light = Fraction(1, 2 ** 30)
+        X = [[Fraction(0)] * n for _ in range(n)]
+        for p in perms[:max(1, k // 2)]:
+            w = Fraction(R.rng.randint(1, 16), 64)
+            for i in range(n):
+                X[i][p[i]] += w
+        q = rand_perm(R.rng, n)
+        for _ in range(R.rng.randint(2, 3)):
+            q2 = list(q)
+            a, b = R.rng.sample(range(n), 2)
+            q2[a], q2[b] = q2[b], q2[a]
+            for i in range(n):
+                X[i][q2[i]] += light
+        extra = light * R.rng.choice([0, 1])
+        for i in range(n):
+            X[i][q[i]] += extra
+        Xf = [[Fraction(float(x)) for x in row] for row in X]
+        return Xf, kind, False
     if kind == "zero":
         # the zero matrix is balanced too (common sum 0): the decomposition is empty
         return [[Fraction(0)] * n for _ in range(n)], kind, True
